@@ -43,6 +43,7 @@ pub fn dispatch(req: &Value) -> Value {
         "relations" => op_relations(req),
         "total" => op_total(req),
         "ext" => op_ext(req),
+        "deb822_edit" => op_deb822_edit(req),
         "satisfied" => op_satisfied(req),
         "lossy_doc" => op_lossy_doc(req),
         "lossy_edits" => op_lossy_edits(req),
@@ -405,4 +406,46 @@ fn op_satisfied(req: &Value) -> Value {
         json!({"all": all_closure, "relations": rels})
     });
     json!({"lossless": lossless, "lossy": lossy})
+}
+
+/// C04/C05: apply a history of field / paragraph edits to a lossless document; report text, live content, content seen through
+/// handles obtained before the history started, and the re-read of the printed text after every step
+fn op_deb822_edit(req: &Value) -> Value {
+    use deb822_lossless::{Deb822, Paragraph};
+    let mut doc: Deb822 = if let Some(pairs) = req["pairs"].as_array() {
+        // programmatically built paragraphs
+        pairs.iter().map(|p| { let v: Vec<(String, String)> = p.as_array().unwrap().iter().map(|kv| (js(&kv[0]), js(&kv[1]))).collect(); Paragraph::from(v) }).collect()
+    } else {
+        match Deb822::from_str(&s(req, "s")) { Ok(d) => d, Err(e) => return json!({"parse_error": e.to_string()}) }
+    };
+    let old_doc_text = |d: &Deb822| d.to_string();
+    let early: Vec<Paragraph> = doc.paragraphs().collect();
+    let snapshot = |doc: &Deb822, early: &Vec<Paragraph>| -> Value {
+        let text = doc.to_string();
+        let reparse = guarded(|| match Deb822::from_str(&text) { Ok(d) => json!({"ok": true, "paras": paras_lossless(&d)}), Err(e) => json!({"ok": false, "err": e.to_string()}) });
+        json!({"text": text, "paras": paras_lossless(doc), "early": early.iter().map(|p| Value::Array(p.items().map(|(k, v)| json!([k, v])).collect())).collect::<Vec<_>>(), "reparse": reparse})
+    };
+    let mut states = vec![snapshot(&doc, &early)];
+    let _ = old_doc_text;
+    for op in req["ops"].as_array().cloned().unwrap_or_default() {
+        let pi = op["para"].as_u64().unwrap_or(0) as usize;
+        let r = guarded(|| {
+            match op["op"].as_str().unwrap_or("") {
+                "set" => { let mut p = doc.paragraphs().nth(pi).unwrap(); p.set(&js(&op["key"]), &js(&op["value"])); }
+                "insert" => { let mut p = doc.paragraphs().nth(pi).unwrap(); p.insert(&js(&op["key"]), &js(&op["value"])); }
+                "remove" => { let mut p = doc.paragraphs().nth(pi).unwrap(); p.remove(&js(&op["key"])); }
+                "rename" => { let mut p = doc.paragraphs().nth(pi).unwrap(); let r = p.rename(&js(&op["key"]), &js(&op["newkey"])); return json!({"renamed": r}); }
+                "add_paragraph" => { let mut p = doc.add_paragraph(); if !op["key"].is_null() { p.set(&js(&op["key"]), &js(&op["value"])); } }
+                "insert_paragraph" => { let mut p = doc.insert_paragraph(op["index"].as_u64().unwrap_or(0) as usize); if !op["key"].is_null() { p.set(&js(&op["key"]), &js(&op["value"])); } }
+                "remove_paragraph" => { doc.remove_paragraph(op["index"].as_u64().unwrap_or(0) as usize); }
+                _ => {}
+            }
+            Value::Null
+        });
+        if r.get("panic").is_some() { states.push(r); break; }
+        let mut st = snapshot(&doc, &early);
+        if let Some(x) = r.get("renamed") { st["renamed"] = x.clone(); }
+        states.push(st);
+    }
+    json!({"states": states})
 }
